@@ -37,6 +37,7 @@ type Report struct {
 	Analysed    map[string]any
 	Selftest    map[string]any
 	curConfig   string
+	alias       map[string]string // while set: rules are reported under these names, other rules are dropped (As)
 }
 
 func newReport(prop, tier string, seed int64) *Report {
@@ -45,8 +46,25 @@ func newReport(prop, tier string, seed int64) *Report {
 
 // Check records an obligation. key must identify the construct without line numbers.
 func (r *Report) Check(rule, key, pos string, ok bool, detail string) bool {
+	if r.alias != nil {
+		to, shared := r.alias[rule]
+		if !shared {
+			return ok
+		}
+		rule = to
+	}
 	r.Obls = append(r.Obls, Obligation{Rule: rule, Key: rule + "/" + key, Pos: pos, OK: ok, Detail: detail, Config: r.curConfig})
 	return ok
+}
+
+// As runs fn (the rules of another property) and files the obligations of the rules named in alias
+// under this property's rule names; obligations of other rules raised by fn are not recorded here
+// (they belong to the property that owns fn).
+func (r *Report) As(alias map[string]string, fn func()) {
+	old := r.alias
+	r.alias = alias
+	defer func() { r.alias = old }()
+	fn()
 }
 
 // Floor demands at least n obligations (instances) for rule; fewer is an
